@@ -164,6 +164,15 @@ func withSingletonSpec(spec *singletonSpec) pidOption {
 	}
 }
 
+// withPostStartOnAttach makes newPID queue PostStart without starting to
+// process it; the spawn starts the actor with startAttached once it is
+// attached to the tree.
+func withPostStartOnAttach() pidOption {
+	return func(pid *PID) {
+		pid.postStartOnAttach.Store(true)
+	}
+}
+
 // withRelocationDisabled disables the actor relocation
 func withRelocationDisabled() pidOption {
 	return func(pid *PID) {
